@@ -188,6 +188,9 @@ func histJudge(prop string, cfg histCfg, o *histObs) []finding {
 				if name == "final-c1" {
 					wantCode = 0xC1
 				}
+				if strings.HasPrefix(name, "code-") {
+					fmt.Sscanf(name, "code-%02x", &wantCode)
+				}
 				haveCode = true
 				bodyIntact := name == "ok" || name == "ok(horizon)"
 				wantErrNil = bodyIntact || !opHasRsp(op)
@@ -368,6 +371,17 @@ func runHist(r *rep.R, prop string) {
 				}
 				histExplore(r, prop, cfg, kk, &idx)
 			}
+		}
+	}
+	// every completion code as the final answer, after nothing / a temporary code
+	for _, inSess := range []bool{true, false} {
+		for _, op := range []int{opGetDeviceID, opChassisControl} {
+			ops := []int{op}
+			if inSess {
+				ops = append(ops, opClose)
+			}
+			cfg := histCfg{Suite: suites[0], InSession: inSess, Ops: ops, Horizon: 2, Alphabet: "codes", MenuOps: []int{0}}
+			histExplore(r, prop, cfg, 1, &idx)
 		}
 	}
 	// handshake payloads (and discovery) under the same kind of answers
